@@ -69,11 +69,17 @@ def run(ctx):
     def helper(n):
         # private free functions of the module (encode/trim/type-word helpers) are inlined
         rest = n[len(MU):] if n.startswith(MU) else None
-        return rest is not None and "::" not in rest and "<" not in rest and "{" not in rest
+        if rest is None or "<" in rest or "{" in rest:
+            return False
+        if "::" not in rest:
+            return True
+        # associated functions that are private to the module (`MatrixId::sigil_for_type`), as opposed to the pub(crate) parse / format functions
+        g = w.lookup(n)
+        return g is not None and rest.count("::") == 1 and "identifiers::matrix_uri" in str(g.get("vis"))
     dex = D.Dex(w.lookup, adt_discr=w.adt_discr, effects=lambda n: True, unroll=1, inline=helper)
 
     ctx.rule("C11.sites", "every panic/bounds site of the matrix_uri module is discharged or reviewed (no indexing of possibly-empty segments)")
-    PC.site_rule(ctx, w, ["ruma_common"], "C11.sites", fn_filter=lambda fn: "identifiers::matrix_uri" in fn["path"], floor=5)
+    PC.site_rule(ctx, w, ["ruma_common"], "C11.sites", fn_filter=lambda fn: "identifiers::matrix_uri" in fn["path"], floor=1)      # the positive controls keep the detector honest; the number of sites varies with the spelling
 
     ctx.rule("C11.encode_set", "PATH_PERCENT_ENCODE_SET (evaluated) contains the bytes that the URI parsers split on or decode: '/', '?', '#', '%', "
                                "space and all ASCII controls")
@@ -143,9 +149,12 @@ def run(ctx):
     reader = {}
     for p in dex.paths(f, [D.sym("s")]):
         lits = [a[2][1] for a, t in p.conds if a[0] == "eq" and t and D.is_const(a[2]) and isinstance(a[2][1], str)]      # type words are string literals
-        args = [e for e in p.effects if e[0].endswith("new_display") and D.is_const(e[1][0]) and isinstance(e[1][0][1], str) and len(e[1][0][1]) == 1]
+        # the sigil put in front of the identifier: `format!("{id}/{sigil}{rest}")` or `id.push(sigil)`
+        args = [e[1][0][1] for e in p.effects if e[0].endswith("new_display") and D.is_const(e[1][0]) and isinstance(e[1][0][1], str) and len(e[1][0][1]) == 1]
+        args += [e[1][1][1] for e in p.effects if e[0].endswith("String::push") and len(e[1]) == 2 and D.is_const(e[1][1]) and isinstance(e[1][1][1], str)
+                 and len(e[1][1][1]) == 1 and e[1][1][1] != "/"]
         if lits and args:
-            reader.setdefault(lits[0], set()).add(args[0][1][0][1])
+            reader.setdefault(lits[0], set()).add(args[0])
     ctx.floor("reader type words", len(reader), 7)
     ctx.check(all(len(v) == 1 for v in reader.values()), "C11.agreement", "C11.agreement:reader-table", w.where(f), bad_msg=f"ambiguous reader table {reader}")
     type_of_sigil_owner = {"RoomOrAliasId": None}
